@@ -464,7 +464,13 @@ def check_case(case):
             is_het = [z not in (0.0, 1.0) for *_x, z in hrows]
             use = [h for h, k in zip(hrows, is_het) if k] if any(is_het) else hrows
             boost = case["tumor_boost"] and "n_alt_freq" in hets
+            hets_before = hets.data.copy()
             bafs = hets.baf_by_ranges(rg, above_half=case["above_half"], tumor_boost=boost)
+            # the table asked keeps its rows' own frequencies (alt_freq = count / depth), whatever options the question had
+            # (seeded change C18m wrote the mirrored / boosted values into an all-het table, so the next question got them)
+            if not hets.data.equals(hets_before):
+                changed = [c for c in hets_before.columns if c not in hets.data.columns or not hets.data[c].equals(hets_before[c])]
+                bad("baf:table-modified", f"baf_by_ranges(above_half={case['above_half']}, tumor_boost={boost}) changed column(s) {changed} of the variant table")
             if len(bafs) != len(case["ranges"]):
                 bad("baf:length", f"{len(bafs)} values for {len(case['ranges'])} ranges")
             else:
